@@ -27,9 +27,15 @@ func (c *decrypt3k3yCmd) Run() error {
 		return err
 	}
 
+	// watermark and key must be removed, otherwise result still looks like encrypted 3k3y image
+	imageCleared, err := fs.NewISO3k3y(imageWrapped)
+	if err != nil {
+		return err
+	}
+
 	fmt.Printf("Decrypting 3k3y image %s ...\n", c.Image.Name())
 
-	_, err = io.Copy(c.Output, imageWrapped)
+	_, err = io.Copy(c.Output, imageCleared)
 	return err
 }
 
